@@ -153,16 +153,10 @@ func (impl Implementation) Dlasr(side blas.Side, pivot lapack.Pivot, direct lapa
 				stmp := s[j-1]
 				if ctmp != 1 || stmp != 0 {
 					for i := 0; i < n; i++ {
-						ctmp := c[j-1]
-						stmp := s[j-1]
-						if ctmp != 1 || stmp != 0 {
-							for i := 0; i < n; i++ {
-								tmp := a[j*lda+i]
-								tmp2 := a[i]
-								a[j*lda+i] = ctmp*tmp - stmp*tmp2
-								a[i] = stmp*tmp + ctmp*tmp2
-							}
-						}
+						tmp := a[j*lda+i]
+						tmp2 := a[i]
+						a[j*lda+i] = ctmp*tmp - stmp*tmp2
+						a[i] = stmp*tmp + ctmp*tmp2
 					}
 				}
 			}
